@@ -1022,7 +1022,7 @@ def log_phase(ctx, cases, wiring, pnu, bad_frozen):
         exprs.append((c['id'], ex)); meta[c['id']] = (c, r)
         if info['ancient']:
             frz_exprs.append((c['id'], '(%s, %s)' % ids['__std__']))
-    results = ctx.coq_cases('log', HEADER, exprs, '(check_prog %s)' % q(TOL), 'tol 1e-12 relative per argument', shard=ctx.pick(6, 12), timeout=1500)
+    results = ctx.coq_cases('log', HEADER, exprs, '(check_prog %s)' % q(TOL), 'tol 1e-12 relative per argument', shard=ctx.pick(8, 12), timeout=1500)
     lap(ctx, 'coq log correspondence (%d cases)' % len(exprs))
     ref_results = ctx.coq_cases('refuse', HEADER, refusals, 'check_refusal', 'exact', shard=4) if refusals else {}
     if frz_exprs:
@@ -1291,7 +1291,7 @@ def slice_phase(ctx, cases, origs):
                               data=dict(data, deviations=[b_[2] or b_[1] for b_ in bad[:6]]),
                               key='DemesUtil.slice:%s-not-preserved' % bad[0][0])      # groups further inputs, not a known finding
             exprs.append((sid, slice_case_coq(r['orig'], one)))
-    results = ctx.coq_cases('slice', HEADER, exprs, '(check_slice %s)' % q(TOL), 'tol 1e-12 relative per number', shard=ctx.pick(12, 24), timeout=1500)
+    results = ctx.coq_cases('slice', HEADER, exprs, '(check_slice %s)' % q(TOL), 'tol 1e-12 relative per number', shard=24, timeout=1500)
     lap(ctx, 'coq slice correspondence (%d slices)' % len(exprs))
     for sid, _ in exprs:
         j, one, data = meta[sid]
